@@ -59,10 +59,8 @@ package protocol
 
 // Names: 1..64 characters matching the pinned pattern. The regular expression itself is an
 // uninterpreted predicate of the string (regexp is trusted).
-//@ fn nameRegexMatch(s string) bool
+//@ pred nameRegexMatch(s string) := reMatch(patternOf(validTopicChannelNameRegex), s)
 //@ pred validName(s string) := 1 <= len(s) && len(s) <= 64 && nameRegexMatch(s)
-//@ extern (*regexp.Regexp).MatchString(re, s) (ok)
-//@   ensures re == validTopicChannelNameRegex ==> ok == nameRegexMatch(s)
 
 //@ func isValidName(name string) bool
 //@   props C09 C10 C15
